@@ -247,6 +247,38 @@ pub fn build_tables(kind: &str, k: u32, region: usize) -> Vec<u8> {
     out
 }
 
+/// tracks x fragments variant: T tracks and F movie fragments of one tiny track fragment each.  What
+/// open() builds should be linear in the file (T + F); a reader that reserves per-track room
+/// for every fragment needs T x F.
+pub fn build_tracks_moofs(tn: u32, f: u32) -> Vec<u8> {
+    let mut out = ser(&FtypBox { major_brand: FourCC::from(*b"isom"), minor_version: 0, compatible_brands: vec![] });
+    let mut moov = MoovBox::default();
+    moov.mvhd.timescale = 1000;
+    moov.mvhd.next_track_id = tn + 1;
+    for i in 0..tn {
+        moov.traks.push(trak(i + 1, 4, false));
+    }
+    let mut mvex = MvexBox::default();
+    mvex.trex.track_id = 1;
+    moov.mvex = Some(mvex);
+    out.extend_from_slice(&ser(&moov));
+    for i in 0..f {
+        let mut moof = MoofBox::default();
+        moof.mfhd.sequence_number = i + 1;
+        let tfhd = TfhdBox { version: 0, flags: TfhdBox::FLAG_DEFAULT_BASE_IS_MOOF, track_id: 1 + (i % tn), ..Default::default() };
+        let mut trun = TrunBox { version: 0, flags: TrunBox::FLAG_SAMPLE_SIZE | TrunBox::FLAG_DATA_OFFSET, sample_count: 1, data_offset: Some(0), ..Default::default() };
+        trun.sample_sizes = vec![1];
+        moof.trafs.push(TrafBox { tfhd, tfdt: None, trun: Some(trun) });
+        let len = ser(&moof).len();
+        if let Some(t) = moof.trafs[0].trun.as_mut() {
+            t.data_offset = Some(len as i32 + 8);
+        }
+        out.extend_from_slice(&ser(&moof));
+        out.extend_from_slice(&bx(b"mdat", &[0x44]));
+    }
+    out
+}
+
 /// fragment-walk variant: one movie fragment with K track fragments of the same track whose runs are
 /// empty, followed by one run of M samples.  Finding the offset of the last sample adds up the M
 /// sizes before it; if every size lookup searches the K track fragments again, one call costs
@@ -288,6 +320,7 @@ pub fn run(tn: u32, k: u32, kind: &str, id: u64, out: &mut Out) {
         "esds" => build_esds(tn, k as usize * 1024),
         "esds4" => build_esds_at(tn, k as usize * 1024, true),
         "fragwalk" => build_fragwalk(tn, k),
+        "tracksmoofs" => build_tracks_moofs(tn, k),
         x if x.starts_with("tbl-") => build_tables(x, tn, k as usize * 1024),
         _ => build(tn, k, kind == "avc"),
     };
